@@ -349,6 +349,13 @@ class Env:
                 dre = z3.simplify(x.re.z - y.re.z, som=True, sort_sums=True)
                 dim = z3.simplify(x.im.z - y.im.z, som=True, sort_sums=True)
                 triv = dre.eq(z3.RealVal(0)) and dim.eq(z3.RealVal(0))
+                identical = x.re.z.eq(y.re.z) and x.im.z.eq(y.im.z)
+                if triv and not (x.re.is_conc and x.im.is_conc):
+                    # two symbolic (non-constant) terms from two executions, equal in z3's normal form (sum of monomials,
+                    # sorted sums; pointer-identical after hash-consing when `identical`): decided work, not a constant check
+                    self.obls.append(Obl('%s%s' % (label, list(idx) if idx else ''), 'unsat', 0.0, True, self.path_no,
+                                         detail='identical terms' if identical else 'z3 normal form'))
+                    continue
                 parts = []
                 if not dre.eq(z3.RealVal(0)):
                     parts.append(x.re.z == y.re.z)
